@@ -286,7 +286,7 @@ fn main() {
         }
     }
     // ---- (i) prefix law: random, longer ----------------------------------------------------
-    let nr = ctx.budget(40, 800);
+    let nr = ctx.cbudget(40, 800);
     for _ in 0..nr {
         if let Some(mut rng) = ctx.random_case() {
             let len = rng.range_usize(10, 48);
@@ -304,7 +304,7 @@ fn main() {
         }
     }
     // ---- (ii) pre-window histories -----------------------------------------------------------
-    let nh = ctx.budget(300, 6000);
+    let nh = ctx.cbudget(300, 6000);
     for _ in 0..nh {
         if let Some(mut rng) = ctx.random_case() {
             for &rf in &fns {
